@@ -88,7 +88,7 @@ func c16(c *Ctx) {
 				// R16.1b
 				if rel == "internal/state" && is32(dst) && (engine.IsNamed(dst, "imap", "UID") || engine.IsNamed(dst, "imap", "SeqID")) && isWideInt(src) {
 					convs++
-					okSrc, why := boundedIDSource(cv.X)
+					okSrc, why := c.boundedIDSource(cv.X, 2)
 					R.Check(okSrc, "R16.1", c.name(f)+"|to-"+engine.NamedOf(dst).Obj().Name(), P.Pos(cv.Pos()),
 						"operand is a parsed sequence number, a length/index or a constant",
 						"a wide integer is narrowed to a 32-bit id and its origin ("+why+") is not a bounded source")
@@ -105,7 +105,7 @@ func c16(c *Ctx) {
 
 // boundedIDSource: all producers are SeqNum-typed values, len()/index arithmetic,
 // constants, or values that were 32 bits wide.
-func boundedIDSource(v ssa.Value) (bool, string) {
+func (c *Ctx) boundedIDSource(v ssa.Value, depth int) (bool, string) {
 	ok := true
 	why := ""
 	seen := map[ssa.Value]bool{}
@@ -155,6 +155,31 @@ func boundedIDSource(v ssa.Value) (bool, string) {
 			// the index parameter of a parallel.DoContext worker is in [0, n)
 			if isParallelWorkerIndex(t) {
 				return
+			}
+			// the parameter of an unexported helper of the package: bounded when every call site passes a bounded source
+			if fn := t.Parent(); depth > 0 && fn.Parent() == nil && fn.Object() != nil && !fn.Object().Exported() {
+				ix := -1
+				for i, p := range fn.Params {
+					if p == t {
+						ix = i
+					}
+				}
+				callers := c.P.CallersOf(fn)
+				all := ix >= 0 && len(callers) > 0
+				for _, cs := range callers {
+					cc := cs.Common()
+					if cc.StaticCallee() != fn || ix >= len(cc.Args) {
+						all = false
+						break
+					}
+					if okA, _ := c.boundedIDSource(cc.Args[ix], depth-1); !okA {
+						all = false
+						break
+					}
+				}
+				if all {
+					return
+				}
 			}
 			ok, why = false, "parameter "+t.Name()
 		default:
